@@ -42,7 +42,9 @@ pub fn run(run: &Run) {
     run.set_rule(
         "Generator: proptest strings for IdentifierClass: 45% valid-biased (members of the PVALID set with 0-2 injected risky characters: width-mappable, \
          cased, decomposed/composing, contextual, right-to-left), 20% dense mixes of cased+composing+width+contextual characters, 20% right-to-left \
-         labels (R/AL/AN/EN/NSM/ES/CS/ET/ON/BN members) with composing and cased characters, 15% arbitrary pool strings, plus fixed corner cases; both \
+         labels (R/AL/AN/EN/NSM/ES/CS/ET/ON/BN members) with composing and cased characters, 15% arbitrary pool strings, plus fixed corner cases and ALL strings of \
+         length <= 4 (quick) / 5 (thorough) over a 32-character alphabet in which every step has work to do (fullwidth/halfwidth, cased, titlecase, composing, RTL, \
+         contextual, Cherokee, Deseret); both \
          username profiles; prepare and enforce on every input. Oracle: independent model (width map from UnicodeData 16.0.0 -> non-empty -> \
          IdentifierClass reference scan -> per-char to_lowercase [mapped profile] -> ICU4X NFC -> non-empty -> RFC 5893 rule) giving the set of \
          allowed results; enforce error == prepare error. Non-trivial: prepare accepts and at least two of {width mapping changed, case mapping \
@@ -65,6 +67,17 @@ pub fn run(run: &Run) {
                 }
             }
         }
+    });
+    let l3 = run.pick(4u32, 5u32);
+    enum_strings(run, "enum_alpha_user", &ALPHA_USER, l3, &|s, l| {
+        for p in profs {
+            if check(run, p, s, l).is_err() {
+                shrink_report(run, p, Op::Enforce, s);
+                shrink_report(run, p, Op::Prepare, s);
+                return false;
+            }
+        }
+        true
     });
     run.prop("random", run.pick(3_000_000, 60_000_000), || (username_strings(), 0..2usize), |(s, pi), l| check(run, profs[*pi], s, l));
 }
